@@ -178,6 +178,11 @@ class Run(object):
                   raised=raised, feas=feas, xfin=bool(np.all(np.isfinite(x))))
         if raised:
             raise problems.RAISE_KINDS[fk["kind"]]("injected at evaluation %d" % i)
+        if self.inst.get("rdtype"):
+            # a residual function that hands back a legal 1-D array of another dtype (single precision / integer residuals); the harness's own record
+            # keeps the values as computed in that dtype
+            r = r.astype({"float32": np.float32, "int": np.int64}[self.inst["rdtype"]])
+            self.calls[-1]["r"] = np.asarray(r, dtype=float)
         return r
 
     def on_log(self, i, j):
